@@ -4,6 +4,10 @@ From Coq Require Import Arith List Bool Lia.
 Import ListNotations.
 From Cffi Require Import C36.Model.
 
+Definition b2n (b : bool) : nat := if b then 1 else 0.
+(* how many unreturned gil_ensure / PyGILState_Ensure calls the thread has on its thread state *)
+Definition load (s : state) (t : nat) : nat := b2n (incb s t) + nest s t + b2n (ownb s t).
+
 Record Inv (s : state) : Prop := mkInv {
   iA : fatal s = false;
   iB : NoDup (zombies s);
@@ -29,12 +33,14 @@ Record Inv (s : state) : Prop := mkInv {
   iK3 : forall t ts o k d, gts s t = Some ts -> tss s ts = TsLive o k d -> o = t;
   iK2 : forall ts o k d, tss s ts = TsLive o k d -> gts s o = Some ts;
   iI : forall ts o k c, tss s ts = TsLive o k (Some c) ->
-         1 <= k /\ (thr s o = Alive -> incb s o = true -> 2 <= k);
+         1 <= k /\ (thr s o = Alive -> load s o + 1 <= k);
   iI2 : forall ts o k, tss s ts = TsLive o k None -> dropped s ts = false ->
-         k = 1 /\ incb s o = false /\ gts s o = Some ts /\ thr s o = Alive /\ exists ph, reg s = Some (o, ph);
+         k = 1 /\ incb s o = false /\ gts s o = Some ts /\ thr s o = Alive /\ nest s o = 0 /\ ownb s o = false /\
+         exists ph, reg s = Some (o, ph);
   iI3 : forall ts o k, tss s ts = TsLive o k None -> dropped s ts = true ->
-         1 <= k /\ (thr s o = Alive -> incb s o = true -> 2 <= k) /\ gts s o = Some ts;
+         1 <= k /\ (thr s o = Alive -> load s o + 1 <= k) /\ gts s o = Some ts;
   iL : forall ts, nextts s <= ts -> dropped s ts = false;
+  iN : forall t, gts s t = None -> nest s t = 0 /\ ownb s t = false;
   iJ : forall t ph, reg s = Some (t, ph) ->
          thr s t = Alive /\ incb s t = false /\ finalized s = false /\
          exists ts, gts s t = Some ts /\ tss s ts = TsLive t 1 None /\ dropped s ts = false;
@@ -61,7 +67,7 @@ Ltac upd_split :=
              [subst; rewrite ?upd_same in *|rewrite ?upd_other in * by assumption]
          end.
 
-Ltac fields := cbn [thr gts tlsc incb tss cans zombies reg nextts nextc ndel finalized fatal dropped] in *.
+Ltac fields := cbn [thr gts tlsc incb tss cans zombies reg nextts nextc ndel finalized fatal dropped nest ownb] in *.
 
 Ltac destr_ex :=
   repeat match goal with
@@ -89,6 +95,7 @@ Ltac sat1 HI :=
   repeat match goal with
          | H : gts ?s ?t = Some ?ts, H1 : thr ?s ?t = Alive, H2 : finalized ?s = false |- _ =>
              pose_once (1, t, ts) (iH s HI t ts H H1 H2)
+         | H : gts ?s ?t = None |- _ => pose_once (23, t) (iN s HI t H)
          | H : gts ?s ?t = Some ?ts |- _ => pose_once (2, t, ts) (iH2 s HI t ts H)
          | H : gts ?s ?t = Some ?ts |- _ => pose_once (19, t, ts) (iK1 s HI t ts H)
          | H : gts ?s ?t = Some ?ts, H1 : tss ?s ?ts = TsLive ?o ?k ?d |- _ =>
@@ -172,8 +179,22 @@ Ltac fresh_goal HI :=
   | |- dropped ?s ?ts = false => apply (iL s HI); lia
   end.
 
+Ltac load_tac :=
+  unfold load, b2n in *; fields; upd_split;
+  repeat match goal with
+         | H : context [if ?b then _ else _] |- _ => destruct b eqn:?
+         | |- context [if ?b then _ else _] => destruct b eqn:?
+         end; try congruence; try lia;
+  repeat split; try congruence; try lia; eauto.
+
+Ltac dropped_fresh HI :=
+  exfalso;
+  match goal with
+  | H : dropped ?s ?ts = true |- _ => rewrite (iL s HI ts) in H by lia; discriminate H
+  end.
+
 Ltac finish HI :=
-  easy_goal; try (fresh_goal HI);
+  easy_goal; try (fresh_goal HI); try (dropped_fresh HI); try (load_tac; fail);
   try (split_tl HI; try discriminate; try congruence; easy_goal; try (exfalso; eauto; congruence)).
 
 Ltac inv_tac :=
@@ -182,7 +203,7 @@ Ltac inv_tac :=
       open_step Hs; use_busy; sat HI;
       repeat match goal with H : tss _ _ = TsLive _ _ ?d |- _ => is_var d; destruct d end; sat HI;
       try discriminate; try congruence; try lia;
-      try (exfalso; eauto; fail);
+      try (exfalso; eauto; fail); try (exfalso; load_tac; fail);
       pose proof HI as HI'; destruct HI';
       constructor; fields; intros; upd_split; sat HI; finish HI
   end.
@@ -213,7 +234,7 @@ Proof.
   | HI : Inv ?s, Hs : step ?s _ _ |- _ =>
       open_step Hs; use_busy; try zomb_head HI; sat HI;
       try discriminate; try congruence; try lia;
-      try (exfalso; eauto; fail);
+      try (exfalso; eauto; fail); try (exfalso; load_tac; fail);
       pose proof HI as HI'; destruct HI';
       constructor; fields; intros; upd_split; sat HI; finish HI
   end.
@@ -285,6 +306,18 @@ Proof.
   constructor; fields; intros; upd_split; sat HI; finish HI.
 Qed.
 
+Lemma inv_nested s t s' : Inv s -> step s (EvCbNested t) s' -> Inv s'.
+Proof. intros HI Hs. inv_tac. Qed.
+
+Lemma inv_nested_end s t s' : Inv s -> step s (EvCbNestedEnd t) s' -> Inv s'.
+Proof. intros HI Hs. inv_tac. Qed.
+
+Lemma inv_own_ensure s t s' : Inv s -> step s (EvOwnEnsure t) s' -> Inv s'.
+Proof. intros HI Hs. inv_tac. Qed.
+
+Lemma inv_own_release s t s' : Inv s -> step s (EvOwnRelease t) s' -> Inv s'.
+Proof. intros HI Hs. inv_tac. Qed.
+
 Lemma inv_step s e s' : Inv s -> step s e s' -> Inv s'.
 Proof.
   intros HI Hs. destruct e.
@@ -295,6 +328,10 @@ Proof.
   - eapply inv_cbend; eauto.
   - eapply inv_exit; eauto.
   - eapply inv_finalize; eauto.
+  - eapply inv_nested; eauto.
+  - eapply inv_nested_end; eauto.
+  - eapply inv_own_ensure; eauto.
+  - eapply inv_own_release; eauto.
   - eapply inv_drop; eauto.
 Qed.
 
@@ -350,7 +387,7 @@ Proof.
            | |- context [match ?x with _ => _ end] => destruct x eqn:?
            end; fields; upd_split; sat HI;
     repeat match goal with H : tss _ _ = TsLive _ _ ?d |- _ => is_var d; destruct d end; sat HI;
-    try congruence; try lia; auto.
+    try congruence; try lia; auto; try (exfalso; load_tac; fail).
 Qed.
 
 (* the macro runner used by the correspondence visits reachable states only *)
@@ -373,6 +410,12 @@ Proof.
   - eapply r_step; eauto.
   - eapply r_step; eauto.
   - eapply r_step; eauto.
+  - destruct (step_fn s (EvCbNested t)) as [s1|] eqn:E1; [|discriminate].
+    eapply r_step; [eapply r_step; eauto|]; eauto.
+  - destruct (step_fn s (EvOwnEnsure t)) as [s1|] eqn:E1; [|discriminate].
+    destruct (step_fn s1 (EvCbNested t)) as [s2|] eqn:E2; [|discriminate].
+    destruct (step_fn s2 (EvCbNestedEnd t)) as [s3|] eqn:E3; [|discriminate].
+    eapply r_step; [eapply r_step; [eapply r_step; [eapply r_step; eauto|]|]|]; eauto.
 Qed.
 
 (* ---- statements of C36/Props.v *)
@@ -427,13 +470,22 @@ Proof. intros H. apply exited_not_leaked, reach_inv, H. Qed.
 (* after a complete registration (macro first callback) the zombie list as seen at its start is
    gone: sweep_all only returns with reg = None, and it pops until the list is empty *)
 Lemma counter_keeps_alive s t ts k d : reach s -> thr s t = Alive -> gts s t = Some ts ->
-  tss s ts = TsLive t k d -> incb s t = true -> 2 <= k.
+  tss s ts = TsLive t k d ->
+  (reg s = None -> 1 + (if incb s t then 1 else 0) + nest s t + (if ownb s t then 1 else 0) <= k) /\
+  (incb s t = true -> 2 <= k).
 Proof.
-  intros H Ha Hg E Hi. pose proof (reach_inv s H) as HI. destruct d as [c|].
-  - apply (iI s HI _ _ _ _ E); auto.
-  - destruct (dropped s ts) eqn:Ed.
-    + apply (iI3 s HI _ _ _ E Ed); auto.
-    + destruct (iI2 s HI _ _ _ E Ed) as (_ & Hb & _). congruence.
+  intros H Ha Hg E. pose proof (reach_inv s H) as HI.
+  assert (Hl : (exists ph, reg s = Some (t, ph)) \/ load s t + 1 <= k).
+  { destruct d as [c|].
+    - right. apply (iI s HI _ _ _ _ E); auto.
+    - destruct (dropped s ts) eqn:Ed.
+      + right. apply (iI3 s HI _ _ _ E Ed); auto.
+      + left. apply (iI2 s HI _ _ _ E Ed). }
+  unfold load, b2n in Hl. split.
+  - intros Hr. destruct Hl as [[ph Hp]|Hl]; [congruence|]. lia.
+  - intros Hi. destruct Hl as [[ph Hp]|Hl].
+    + destruct (iJ s HI _ _ Hp) as (_ & Hb & _). congruence.
+    + rewrite Hi in Hl. lia.
 Qed.
 
 Lemma drop_clears_backpointer : forall s t s', reach s -> step s (EvDictDrop t) s' ->
@@ -500,7 +552,8 @@ Proof.
   eapply sweep_all_empties; [|eauto].
   unfold step_fn in E. destruct (finalized s); try discriminate.
   destruct (thr s t); try discriminate. destruct (incb s t); try discriminate.
-  destruct (busy s t); try discriminate. rewrite Hg in E. destruct (reg s); try discriminate.
+  destruct (busy s t); try discriminate. destruct (ownb s t); try discriminate.
+  rewrite Hg in E. destruct (reg s); try discriminate.
   inversion E; subst. unfold sweeping_ok; cbn. exact I.
 Qed.
 
